@@ -330,7 +330,7 @@ def render_oracle(entries, sampler):
             res = e[2]
             blob = '-'
             if len(res) == 3:
-                blob = csv(res[2][k] for k in res[2])
+                blob = csv(res[2][k] for k in sorted(res[2]))
             out.append('o E %s %s %s' % (frac(res[0]), frac(res[1]), blob))
         elif tag == 'Q':
             out.append('o Q %d %s %s' % (index[id(e[1])], e[2], frac(e[3])))
@@ -345,7 +345,7 @@ def _st_text(params, pos, stats, blob):
     b = '-'
     if blob is not None:
         names = blob.dtype.names if hasattr(blob, 'dtype') and blob.dtype.names else list(blob.keys())
-        b = csv(blob[k] for k in names)
+        b = csv(blob[k] for k in sorted(names))        # by NAME: the order of fields / keys carries no meaning
     return 'pos=%s logl=%s logp=%s blob=%s' % (
         csv(pos[p] for p in params), frac(stats['logl']), frac(stats['logp']), b)
 
